@@ -26,7 +26,7 @@ MODES = (None, "2-point", "3-point", "cs")
 
 def floors(tier):
     return {"fd_runs": 600, "stencil_points_checked": 20000, "value_comparisons": 250, "runs_active_bound_at_optimum": 250,
-            "mode:None": 100, "mode:2-point": 100, "mode:3-point": 100, "mode:cs": 40, "degenerate_side_runs": 40, "settings_leak_checks": 60, "fd_restarts": 200, "finite_difference_gradients_compared_with_the_exact_one": 300, "finite_difference_gradients_with_a_box_side_below_the_step": 30, "problems_with_gradient_scaler": 30, "problems_with_logger": 40, "problems_whose_objective_returns_a_reused_array": 25, "problems_with_nested_finite_difference_run": 20, "__nontrivial__": 200}
+            "mode:None": 100, "mode:2-point": 100, "mode:3-point": 100, "mode:cs": 40, "degenerate_side_runs": 40, "settings_leak_checks": 60, "fd_restarts": 200, "fd_restarts_from_a_call_that_computed_no_gradient": 150, "finite_difference_gradients_compared_with_the_exact_one": 300, "finite_difference_gradients_with_a_box_side_below_the_step": 30, "problems_with_gradient_scaler": 30, "problems_with_logger": 40, "problems_whose_objective_returns_a_reused_array": 25, "problems_with_nested_finite_difference_run": 20, "__nontrivial__": 200}
 
 
 def cases(tier, seed):
@@ -145,6 +145,20 @@ def run(spec):
                 if b.snap["nfev"] != a.snap["nfev"] + b.nf:
                     out.violate("nfev_misses_stencil_points", f"{name}: after a restart nfev={b.snap['nfev']} but the checkpoint counted {a.snap['nfev']} and "
                                 f"{b.nf} further objective calls were made", phase="restart", **tags)
+                    break
+        if not spec.get("scaler") and spec.get("split", 2) % 2 == 1:
+            # a first call that returns at once (a target its start point already meets: one evaluation, no gradient), continued in
+            # this finite-difference mode: nfev counts that evaluation and every one made since, stencil points of the first gradient included
+            a0 = probes.run_min(P, dict(base, jac=mode, ftarget=1e300))
+            if a0.exc is None and a0.snap["njev"] == 0:
+                b0 = probes.run_min(P, dict(base, jac=mode), checkpoint=a0.result, x0=np.array(a0.result.x, dtype=float, copy=True))
+                out.count("fd_restarts_from_a_call_that_computed_no_gradient")
+                if b0.exc is not None:
+                    out.violate("fd_run_raised", f"{name}: restart from a result without gradient raised {type(b0.exc).__name__}: {b0.exc}", exc=type(b0.exc).__name__, **tags)
+                    break
+                if b0.snap["nfev"] != a0.snap["nfev"] + b0.nf:
+                    out.violate("nfev_misses_stencil_points", f"{name}: restart from a call that returned before any gradient: nfev={b0.snap['nfev']} but the checkpoint "
+                                f"counted {a0.snap['nfev']} and {b0.nf} further objective calls were made", phase="restart_without_gradient", **tags)
                     break
         xe = tr.snap["x"]
         active_end = bool(np.any(((xe == P.lb) | (xe == P.ub)) & (P.lb < P.ub)))
